@@ -726,6 +726,61 @@ pub fn lists(rng: &mut Rng, be: bool, asz: u8, d64: bool, version: u16) -> (Vec<
     (r.v, rl.v, l.v, ll.v, first)
 }
 
+/// `.debug_loc.dwo` of the GNU split-DWARF extension (DWARF <= 4): DW_LLE kinds without
+/// a header, 4-byte startx_length lengths and 2-byte expression lengths.
+pub fn gnu_loc(rng: &mut Rng, be: bool, asz: u8) -> Vec<u8> {
+    let w = asz as usize;
+    let mask = if asz >= 8 { u64::MAX } else { (1u64 << (8 * asz as u32)) - 1 };
+    let mut a = Asm::new(be);
+    for _ in 0..1 + rng.usize(2) {
+        for _ in 0..rng.usize(6) {
+            let kind = if rng.chance(1, 16) { rng.next() as u8 } else { 1 + rng.below(8) as u8 };
+            a.u8(kind);
+            let mut has_data = true;
+            match kind {
+                1 => {
+                    a.uleb(if rng.chance(1, 8) { rng.interesting() } else { rng.below(6) });
+                    has_data = false;
+                }
+                2 => {
+                    a.uleb(rng.below(6)).uleb(if rng.chance(1, 8) { rng.interesting() } else { rng.below(6) });
+                }
+                3 => {
+                    a.uleb(rng.below(6)).u32(if rng.chance(1, 4) { rng.interesting() as u32 } else { rng.below(0x100) as u32 });
+                }
+                4 => {
+                    let b = rng.below(0x1000);
+                    a.uleb(b).uleb(if rng.chance(1, 6) { rng.interesting() } else { b + rng.below(0x100) });
+                }
+                5 => {}
+                6 => {
+                    a.uint(addr_val(rng, asz), w);
+                    has_data = false;
+                }
+                7 => {
+                    let b = addr_val(rng, asz);
+                    a.uint(b, w).uint(if rng.bool() { addr_val(rng, asz) } else { b.wrapping_add(rng.below(64)) & mask }, w);
+                }
+                8 => {
+                    a.uint(addr_val(rng, asz), w).u32(if rng.chance(1, 4) { rng.interesting() as u32 } else { rng.below(0x100) as u32 });
+                }
+                _ => {
+                    has_data = false;
+                }
+            }
+            if has_data {
+                let x = small_expr(rng);
+                a.u16(if rng.chance(1, 16) { rng.interesting() as u16 } else { x.len() as u16 });
+                a.bytes(&x);
+            }
+        }
+        if !rng.chance(1, 8) {
+            a.u8(0);
+        }
+    }
+    a.v
+}
+
 const AT_POOL: &[u64] = &[
     0x01, 0x02, 0x03, 0x10, 0x11, 0x12, 0x1b, 0x1c, 0x2e, 0x31, 0x3a, 0x40, 0x43, 0x49, 0x52, 0x55,
     0x58, 0x72, 0x73, 0x74, 0x76, 0x79, 0x8c, 0x2111, 0x2130, 0x2131, 0x2132, 0x2133, 0x13, 0x3e, 0x0b,
@@ -943,6 +998,338 @@ pub fn info(rng: &mut Rng, be: bool, asz: u8) -> (Vec<u8>, Vec<u8>, Vec<u8>) {
         let _ = implicit;
     }
     (ab.v, info.v, types.v)
+}
+
+/// A coherent unit whose attributes refer to real lists and address-table entries, so that
+/// list iteration, `die_ranges`, `attr_locations` and the read->write conversion of lists get
+/// past the first lookup: the root DIE carries the base attributes of its version (or of the GNU
+/// split-DWARF extension), children refer to range / location lists by offset or index, and
+/// every table is generated with the geometry those attributes name. Values are biased to the
+/// boundaries of the address size.
+pub fn info_lists(rng: &mut Rng, be: bool, asz: u8, dwo: bool) -> std::collections::BTreeMap<String, Vec<u8>> {
+    let w = asz as usize;
+    let mask = if asz >= 8 { u64::MAX } else { (1u64 << (8 * asz as u32)) - 1 };
+    let version = *rng.pick(&[2u16, 3, 4, 4, 4, 5, 5, 5]);
+    let d64 = rng.chance(1, 6);
+    let ow = if d64 { 8 } else { 4 };
+    let n_addr = 1 + rng.usize(6) as u64;
+    let idx = |rng: &mut Rng| if rng.chance(1, 10) { rng.interesting() } else { rng.below(n_addr + 1) };
+    let len_val = |rng: &mut Rng| match rng.below(6) {
+        0 => rng.interesting(),
+        1 => 0,
+        2 => mask,
+        _ => rng.below(0x100),
+    };
+    // .debug_addr
+    let mut ad = Asm::new(be);
+    let addr_base;
+    if version >= 5 {
+        let tok = ad.begin_len(d64);
+        ad.u16(5).u8(asz).u8(0);
+        addr_base = ad.len();
+        for _ in 0..n_addr {
+            ad.uint(addr_val(rng, asz), w);
+        }
+        ad.end_len(tok, 0);
+    } else {
+        addr_base = 0;
+        for _ in 0..n_addr {
+            ad.uint(addr_val(rng, asz), w);
+        }
+    }
+    // range lists
+    let mut rng_offsets: Vec<u64> = Vec::new(); // offsets usable with DW_FORM_sec_offset
+    let mut loc_offsets: Vec<u64> = Vec::new();
+    let mut r = Asm::new(be);
+    let mut l = Asm::new(be);
+    let mut rl = Asm::new(be);
+    let mut ll = Asm::new(be);
+    let (mut rnglists_base, mut loclists_base) = (0usize, 0usize);
+    let n_lists = 1 + rng.usize(3);
+    let gnu_loc_fmt = dwo && version <= 4;
+    if version >= 5 {
+        for (is_loc, a) in [(false, &mut rl), (true, &mut ll)] {
+            let tok = a.begin_len(d64);
+            a.u16(5).u8(asz).u8(0).u32(n_lists as u32);
+            let table_at = a.len();
+            if is_loc {
+                loclists_base = table_at;
+            } else {
+                rnglists_base = table_at;
+            }
+            for _ in 0..n_lists {
+                a.word(0, d64);
+            }
+            for li in 0..n_lists {
+                a.patch_uint(table_at + li * ow, (a.len() - table_at) as u64, ow);
+                if is_loc {
+                    loc_offsets.push(a.len() as u64);
+                } else {
+                    rng_offsets.push(a.len() as u64);
+                }
+                for _ in 0..rng.usize(5) {
+                    let kind = 1 + rng.below(if is_loc { 8 } else { 7 }) as u8;
+                    a.u8(kind);
+                    let mut has_data = is_loc;
+                    match kind {
+                        1 => {
+                            a.uleb(idx(rng));
+                            has_data = false;
+                        }
+                        2 => {
+                            a.uleb(idx(rng)).uleb(idx(rng));
+                        }
+                        3 => {
+                            a.uleb(idx(rng)).uleb(len_val(rng));
+                        }
+                        4 => {
+                            let b = len_val(rng);
+                            a.uleb(b).uleb(if rng.bool() { b.wrapping_add(rng.below(64)) } else { len_val(rng) });
+                        }
+                        5 if is_loc => {}
+                        5 | 6 if (kind == 5 && !is_loc) || (kind == 6 && is_loc) => {
+                            a.uint(addr_val(rng, asz), w);
+                            has_data = false;
+                        }
+                        6 | 7 if (kind == 6 && !is_loc) || (kind == 7 && is_loc) => {
+                            let b = addr_val(rng, asz);
+                            a.uint(b, w).uint(if rng.bool() { addr_val(rng, asz) } else { b.wrapping_add(rng.below(64)) & mask }, w);
+                        }
+                        _ => {
+                            a.uint(addr_val(rng, asz), w).uleb(len_val(rng));
+                        }
+                    }
+                    if has_data {
+                        let x = small_expr(rng);
+                        a.uleb(x.len() as u64).bytes(&x);
+                    }
+                }
+                a.u8(0);
+            }
+            a.end_len(tok, 0);
+        }
+    } else {
+        for _ in 0..n_lists {
+            rng_offsets.push(r.len() as u64);
+            for _ in 0..rng.usize(5) {
+                let (b, e) = match rng.below(5) {
+                    0 => (mask, addr_val(rng, asz)),
+                    1 => (addr_val(rng, asz), addr_val(rng, asz)),
+                    _ => {
+                        let x = len_val(rng) & mask;
+                        (x, x.wrapping_add(1 + rng.below(0x100)) & mask)
+                    }
+                };
+                if b == 0 && e == 0 {
+                    continue;
+                }
+                r.uint(b, w).uint(e, w);
+            }
+            r.uint(0, w).uint(0, w);
+        }
+        for _ in 0..n_lists {
+            loc_offsets.push(l.len() as u64);
+            if gnu_loc_fmt {
+                for _ in 0..rng.usize(5) {
+                    let kind = 1 + rng.below(4) as u8;
+                    l.u8(kind);
+                    match kind {
+                        1 => {
+                            l.uleb(idx(rng));
+                            continue;
+                        }
+                        2 => {
+                            l.uleb(idx(rng)).uleb(idx(rng));
+                        }
+                        3 => {
+                            l.uleb(idx(rng)).u32(len_val(rng) as u32);
+                        }
+                        _ => {
+                            let b = len_val(rng);
+                            l.uleb(b).uleb(if rng.bool() { b.wrapping_add(rng.below(64)) } else { len_val(rng) });
+                        }
+                    }
+                    let x = small_expr(rng);
+                    l.u16(x.len() as u16).bytes(&x);
+                }
+                l.u8(0);
+            } else {
+                for _ in 0..rng.usize(5) {
+                    let (b, e) = match rng.below(5) {
+                        0 => (mask, addr_val(rng, asz)),
+                        1 => (addr_val(rng, asz), addr_val(rng, asz)),
+                        _ => {
+                            let x = len_val(rng) & mask;
+                            (x, x.wrapping_add(1 + rng.below(0x100)) & mask)
+                        }
+                    };
+                    if b == 0 && e == 0 {
+                        continue;
+                    }
+                    l.uint(b, w).uint(e, w);
+                    if b != mask {
+                        let x = small_expr(rng);
+                        l.u16(x.len() as u16).bytes(&x);
+                    }
+                }
+                l.uint(0, w).uint(0, w);
+            }
+        }
+    }
+    // forms
+    let ptr_form: u64 = if version >= 4 { 0x17 } else if d64 { 0x07 } else { 0x06 };
+    let rng_form = if version >= 5 && rng.bool() { 0x23 } else { ptr_form };
+    let loc_form = if version >= 5 && rng.bool() { 0x22 } else { ptr_form };
+    let addrx_form: Option<u64> = if version >= 5 { Some(0x1b) } else if dwo { Some(0x1f01) } else { None };
+    let use_addrx = addrx_form.is_some() && rng.bool();
+    // abbreviations
+    let mut ab = Asm::new(be);
+    let mut root_attrs: Vec<(u64, u64)> = vec![(0x11, 0x01)];
+    let with_bases = !rng.chance(1, 5);
+    if with_bases {
+        if version >= 5 {
+            root_attrs.push((0x73, 0x17));
+            root_attrs.push((0x74, 0x17));
+            root_attrs.push((0x8c, 0x17));
+        } else if dwo {
+            root_attrs.push((0x2133, ptr_form));
+        }
+    }
+    let root_ranges = rng.bool();
+    if root_ranges {
+        root_attrs.push((0x55, rng_form));
+    }
+    ab.uleb(1).uleb(if version >= 5 && dwo && rng.bool() { 0x4a } else { 0x11 }).u8(1);
+    for (a, f) in &root_attrs {
+        ab.uleb(*a).uleb(*f);
+    }
+    ab.u8(0).u8(0);
+    // 2: variable with a location list
+    ab.uleb(2).uleb(0x34).u8(0).uleb(0x02).uleb(loc_form).u8(0).u8(0);
+    // 3: subprogram with low_pc / high_pc / ranges
+    let low_form = if use_addrx { addrx_form.unwrap() } else { 0x01 };
+    let high_form = *rng.pick(&[0x0fu64, 0x06, 0x01]);
+    ab.uleb(3).uleb(0x2e).u8(0).uleb(0x11).uleb(low_form).uleb(0x12).uleb(high_form).uleb(0x55).uleb(rng_form).u8(0).u8(0);
+    // 4: variable with an expression
+    ab.uleb(4).uleb(0x34).u8(0).uleb(0x02).uleb(if version >= 4 { 0x18 } else { 0x0a }).u8(0).u8(0);
+    // 5: lexical block with low_pc/high_pc only
+    ab.uleb(5).uleb(0x0b).u8(0).uleb(0x11).uleb(low_form).uleb(0x12).uleb(high_form).u8(0).u8(0);
+    ab.u8(0);
+    // unit
+    let mut a = Asm::new(be);
+    let tok = a.begin_len(d64);
+    a.u16(version);
+    if version >= 5 {
+        let ut = if dwo { *rng.pick(&[5u8, 5, 1]) } else { *rng.pick(&[1u8, 1, 4]) };
+        a.u8(ut).u8(asz).word(0, d64);
+        if ut == 4 || ut == 5 {
+            a.u64(rng.next());
+        }
+    } else {
+        a.word(0, d64).u8(asz);
+    }
+    let list_ref = |rng: &mut Rng, offs: &[u64], base: usize, form: u64| -> u64 {
+        if rng.chance(1, 12) {
+            return rng.interesting();
+        }
+        if form == 0x22 || form == 0x23 {
+            rng.below(offs.len() as u64 + 1)
+        } else {
+            let o = *rng.pick(offs);
+            let _ = base;
+            if rng.chance(1, 10) { o.wrapping_add(1) } else { o }
+        }
+    };
+    let emit_ref = |a: &mut Asm, form: u64, v: u64| match form {
+        0x22 | 0x23 => {
+            a.uleb(v);
+        }
+        0x06 => {
+            a.u32(v as u32);
+        }
+        0x07 => {
+            a.u64(v);
+        }
+        _ => {
+            a.word(v, d64);
+        }
+    };
+    let emit_low = |rng: &mut Rng, a: &mut Asm| {
+        if low_form == 0x01 {
+            a.uint(addr_val(rng, asz), w);
+        } else {
+            a.uleb(idx(rng));
+        }
+    };
+    let emit_high = |rng: &mut Rng, a: &mut Asm| match high_form {
+        0x0f => {
+            a.uleb(len_val(rng));
+        }
+        0x06 => {
+            a.u32(len_val(rng) as u32);
+        }
+        _ => {
+            a.uint(addr_val(rng, asz), w);
+        }
+    };
+    // root
+    a.uleb(1);
+    for (at, f) in &root_attrs {
+        match *at {
+            0x11 => {
+                a.uint(if rng.bool() { 0 } else { addr_val(rng, asz) }, w);
+            }
+            0x73 | 0x2133 => emit_ref(&mut a, *f, if rng.chance(1, 10) { rng.interesting() } else { addr_base as u64 }),
+            0x74 => emit_ref(&mut a, *f, if rng.chance(1, 10) { rng.interesting() } else { rnglists_base as u64 }),
+            0x8c => emit_ref(&mut a, *f, if rng.chance(1, 10) { rng.interesting() } else { loclists_base as u64 }),
+            _ => {
+                let v = list_ref(rng, &rng_offsets, rnglists_base, *f);
+                emit_ref(&mut a, *f, v)
+            }
+        }
+    }
+    for _ in 0..1 + rng.usize(6) {
+        match rng.below(4) {
+            0 => {
+                a.uleb(2);
+                let v = list_ref(rng, &loc_offsets, loclists_base, loc_form);
+                emit_ref(&mut a, loc_form, v);
+            }
+            1 => {
+                a.uleb(3);
+                emit_low(rng, &mut a);
+                emit_high(rng, &mut a);
+                let v = list_ref(rng, &rng_offsets, rnglists_base, rng_form);
+                emit_ref(&mut a, rng_form, v);
+            }
+            2 => {
+                a.uleb(4);
+                let x = small_expr(rng);
+                if version >= 4 {
+                    a.uleb(x.len() as u64);
+                } else {
+                    a.u8(x.len() as u8);
+                }
+                a.bytes(&x);
+            }
+            _ => {
+                a.uleb(5);
+                emit_low(rng, &mut a);
+                emit_high(rng, &mut a);
+            }
+        }
+    }
+    a.u8(0);
+    a.end_len(tok, 0);
+    let mut m = std::collections::BTreeMap::new();
+    m.insert("debug_abbrev".to_string(), ab.v);
+    m.insert("debug_info".to_string(), a.v);
+    m.insert("debug_addr".to_string(), ad.v);
+    m.insert("debug_ranges".to_string(), r.v);
+    m.insert("debug_rnglists".to_string(), rl.v);
+    m.insert("debug_loc".to_string(), l.v);
+    m.insert("debug_loclists".to_string(), ll.v);
+    m
 }
 
 // ---------------------------------------------------------------------------------------
